@@ -280,7 +280,7 @@ class _DirectReducer(_RequiredForecastingHorizonMixin, _Reducer):
 
         # Iterate over estimators/forecast horizon
         for i, estimator in enumerate(self.estimators_):
-            y_pred[i] = estimator.predict(X_pred)
+            y_pred[i] = estimator.predict(X_pred)[0]
 
         return y_pred
 
@@ -425,7 +425,7 @@ class _RecursiveReducer(_OptionalForecastingHorizonMixin, _Reducer):
                 X_pred = X_pred.reshape(1, -1)
 
             # Generate predictions.
-            y_pred[i] = self.estimator_.predict(X_pred)
+            y_pred[i] = self.estimator_.predict(X_pred)[0]
 
             # Update last window with previous prediction.
             last[:, 0, window_length + i] = y_pred[i]
@@ -543,7 +543,7 @@ class _DirRecReducer(_RequiredForecastingHorizonMixin, _Reducer):
             if self._estimator_scitype == "tabular-regressor":
                 X_pred = X_pred.reshape(1, -1)
 
-            y_pred[i] = self.estimators_[i].predict(X_pred)
+            y_pred[i] = self.estimators_[i].predict(X_pred)[0]
 
             # Update the last window with previously predicted value.
             X_full[:, :, window_length + i] = y_pred[i]
